@@ -19,7 +19,8 @@ STATE_MEMBERS = {'m_indentHandler', 'm_elemStack', 'm_nextIsRaw', 'm_preserves',
 TEXT_FNS = {'writeCharacters', 'writeCDATA', 'charactersRaw'}
 
 
-def mentions_state(ast):
+def mentions_state(ast, members=None):
+    members = members or STATE_MEMBERS
     """a member of the indent / element-stack state is used (other than to ask a container for its memory manager)"""
     harmless = set()
     for x in walk(ast):
@@ -27,7 +28,7 @@ def mentions_state(ast):
             o = strip_casts(x.get('obj'))
             if isinstance(o, dict) and o.get('k') == 'Member':
                 harmless.add(id(o))
-    return any(x.get('k') == 'Member' and x.get('m') in STATE_MEMBERS and id(x) not in harmless for x in walk(ast))
+    return any(x.get('k') == 'Member' and x.get('m') in members and id(x) not in harmless for x in walk(ast))
 
 
 class Obj:
@@ -43,6 +44,9 @@ class World:
         self.kind = ['M']
         self.touch_memo = {}
         self.opaque_seen = set()
+        self.state_members = STATE_MEMBERS
+        self.text_fns = TEXT_FNS
+        self.markup_fns = ('writeParentTagEnd', 'startElement', 'endElement', 'comment', 'writeProcessingInstruction', 'endDocument')
 
     def method(self, cls, name):
         a = self.facts.asts(cls + '::' + name, must=False)
@@ -54,7 +58,7 @@ class World:
         if key in self.touch_memo:
             return self.touch_memo[key]
         self.touch_memo[key] = False
-        r = mentions_state(a['body'])
+        r = mentions_state(a['body'], self.state_members)
         if not r and depth < 6:
             for c in calls(a['body']):
                 if c.get('k') in ('MCall', 'Call') and c.get('fn'):
@@ -106,7 +110,7 @@ class ObjMachine(Machine):
     def exec(self, s):
         # loops that do not touch the indent / element-stack state only produce output of the current kind
         if s['k'] in ('While', 'For', 'Do'):
-            if not mentions_state(s) and not any(self.callee_touches(c) for c in calls(s)):
+            if not mentions_state(s, self.world.state_members) and not any(self.callee_touches(c) for c in calls(s)):
                 self.emit()
                 return
         super().exec(s)
@@ -116,7 +120,7 @@ class ObjMachine(Machine):
             return False
         o = strip_casts(c.get('obj')) if c.get('k') == 'MCall' else None
         if o is not None and o.get('k') != 'This':
-            return o.get('k') == 'Member' and o.get('m') in STATE_MEMBERS
+            return o.get('k') == 'Member' and o.get('m') in self.world.state_members
         nm = c.get('n') or callee(c).split('::')[-1]
         b = self.world.method(self.obj.cls, nm) or ((self.world.facts.asts(c['fn'], must=False) or [None])[0] if c.get('fn') else None)
         return b is not None and self.world.touches(b)
@@ -129,13 +133,13 @@ class ObjMachine(Machine):
 
     def run_method(self, obj, a, args, name):
         env = {p['id']: (args[i] if i < len(args) else 0) for i, p in enumerate(a['params'])}
-        m = ObjMachine(self.world, obj, env, name)
+        m = type(self)(self.world, obj, env, name)
         m.fuel = self.fuel
         w = self.world
         pushed = False
-        if name in TEXT_FNS:
+        if name in w.text_fns:
             w.kind.append('T'); pushed = True
-        elif obj is self.obj and name in ('writeParentTagEnd', 'startElement', 'endElement', 'comment', 'writeProcessingInstruction', 'endDocument'):
+        elif obj is self.obj and name in w.markup_fns:
             w.kind.append('M'); pushed = True
         try:
             return m.call(a['body'])
@@ -204,7 +208,13 @@ class ObjMachine(Machine):
 
     def call_on(self, obj, c, n):
         w = self.world
-        a = w.method(obj.cls, n)
+        a = None
+        if c.get('qual') and c.get('fn'):
+            # an explicitly qualified call of a base-class member (Base::startElement(..)) binds statically
+            cand = w.facts.asts(c['fn'], must=False)
+            a = cand[0] if cand else None
+        if a is None:
+            a = w.method(obj.cls, n)
         if a is None and c.get('fn'):
             cand = w.facts.asts(c['fn'], must=False)
             a = cand[0] if cand else None
